@@ -2,6 +2,7 @@ package main
 
 import (
 	"fmt"
+	"sync"
 	"time"
 
 	fpgo "github.com/TeaEntityLab/fpGo/v2"
@@ -51,14 +52,29 @@ func mailboxOracle(family string, r *vsched.Result, senders, msgs int) []vsched.
 }
 
 func handlerScenario(capacity, senders, msgs, bound int) *vsched.Scenario {
+	return idleHandlerScenario(capacity, senders, msgs, 0, bound)
+}
+
+// idleHandlerScenario / idleActorScenario: the mailbox exists, nothing is submitted for `idle` of (virtual) time - 3 s,
+// 10 min - and then all senders start at the same instant (a mailbox that parks or releases its goroutine while idle
+// must come back as ONE consumer).
+func idleHandlerScenario(capacity, senders, msgs int, idle time.Duration, bound int) *vsched.Scenario {
+	name := fmt.Sprintf("handler/cap%d/senders%d/msgs%d", capacity, senders, msgs)
+	if idle > 0 {
+		name += fmt.Sprintf("/after-%v-idle", idle)
+	}
 	return &vsched.Scenario{
-		Name:  fmt.Sprintf("handler/cap%d/senders%d/msgs%d", capacity, senders, msgs),
-		Bound: bound,
+		Name:    name,
+		Bound:   bound,
+		IdleGap: int64(3 * time.Hour),
 		Body: func() {
 			h := fpgo.Handler.NewByCh(make(chan func(), capacity))
 			for s := 0; s < senders; s++ {
 				s := s
 				vsched.GoNamed(fmt.Sprintf("sender%d", s), func() {
+					if idle > 0 {
+						time.Sleep(idle)
+					}
 					for k := 0; k < msgs; k++ {
 						k := k
 						h.Post(func() {
@@ -74,12 +90,100 @@ func handlerScenario(capacity, senders, msgs, bound int) *vsched.Scenario {
 	}
 }
 
+// backlogScenario: a Handler over a channel of `capacity` slots whose first function blocks until `posts` more have been
+// submitted by `senders` goroutines (they all fit the channel): then everything runs exactly once, per sender in order,
+// one at a time. Sizes far beyond the interleaving scenarios (a consumer that drains in batches of a fixed size).
+func backlogScenario(capacity, senders, posts, bound int) *vsched.Scenario {
+	return &vsched.Scenario{
+		Name:       fmt.Sprintf("handler/cap%d/backlog-of-%d-from-%d-senders", capacity, posts, senders),
+		Bound:      bound,
+		MaxSteps:   4000000,
+		FirstOnly:  bound == 0 && posts > 400,
+		MaxThreads: 200,
+		Body: func() {
+			h := fpgo.Handler.NewByCh(make(chan func(), capacity))
+			gate := make(chan struct{})
+			h.Post(func() { <-gate })
+			var wg sync.WaitGroup
+			for s := 0; s < senders; s++ {
+				s := s
+				wg.Add(1)
+				vsched.GoNamed(fmt.Sprintf("sender%d", s), func() {
+					for k := 0; k < posts/senders; k++ {
+						k := k
+						h.Post(func() {
+							vsched.Event("enter", s, k)
+							vsched.Event("leave", s, k)
+						})
+					}
+					wg.Done()
+				})
+			}
+			wg.Wait()
+			close(gate)
+		},
+		Check: func(r *vsched.Result) []vsched.Failure {
+			fs := e1.Basic("C12", "handler-backlog", r, nil)
+			if len(r.Panics) > 0 {
+				return fs
+			}
+			cnt := map[[2]int]int{}
+			last := map[int]int{}
+			depth := 0
+			for _, e := range r.Events {
+				switch e.Kind {
+				case "enter":
+					s, k := e.Args[0].(int), e.Args[1].(int)
+					cnt[[2]int{s, k}]++
+					if prev, ok := last[s]; ok && k < prev && len(fs) < 3 {
+						fs = append(fs, e1.Fail("C12|handler-backlog|sender-order", "a backlog of %d functions: sender %d's function %d ran after its function %d", posts, s, k, prev))
+					}
+					last[s] = k
+					if depth > 0 && len(fs) < 3 {
+						fs = append(fs, e1.Fail("C12|handler-backlog|overlap", "two functions ran at the same time"))
+					}
+					depth++
+				case "leave":
+					depth--
+				}
+			}
+			lost, dup := 0, 0
+			for s := 0; s < senders; s++ {
+				for k := 0; k < posts/senders; k++ {
+					switch n := cnt[[2]int{s, k}]; {
+					case n == 0:
+						lost++
+					case n > 1:
+						dup++
+					}
+				}
+			}
+			if lost > 0 {
+				fs = append(fs, e1.Fail("C12|handler-backlog|lost", "a backlog of %d accepted functions on a Handler over a channel of %d: %d never ran", posts, capacity, lost))
+			}
+			if dup > 0 {
+				fs = append(fs, e1.Fail("C12|handler-backlog|duplicate", "a backlog of %d accepted functions on a Handler over a channel of %d: %d ran more than once", posts, capacity, dup))
+			}
+			return fs
+		},
+	}
+}
+
 type amsg struct{ s, k int }
 
 func actorScenario(capacity, senders, msgs, bound int) *vsched.Scenario {
+	return idleActorScenario(capacity, senders, msgs, 0, bound)
+}
+
+func idleActorScenario(capacity, senders, msgs int, idle time.Duration, bound int) *vsched.Scenario {
+	name := fmt.Sprintf("actor/cap%d/senders%d/msgs%d", capacity, senders, msgs)
+	if idle > 0 {
+		name += fmt.Sprintf("/after-%v-idle", idle)
+	}
 	return &vsched.Scenario{
-		Name:  fmt.Sprintf("actor/cap%d/senders%d/msgs%d", capacity, senders, msgs),
-		Bound: bound,
+		Name:    name,
+		Bound:   bound,
+		IdleGap: int64(3 * time.Hour),
 		Body: func() {
 			var a *fpgo.ActorDef[amsg]
 			a = fpgo.ActorNewByOptionsGenerics(func(self *fpgo.ActorDef[amsg], m amsg) {
@@ -93,6 +197,9 @@ func actorScenario(capacity, senders, msgs, bound int) *vsched.Scenario {
 			for s := 0; s < senders; s++ {
 				s := s
 				vsched.GoNamed(fmt.Sprintf("sender%d", s), func() {
+					if idle > 0 {
+						time.Sleep(idle)
+					}
 					for k := 0; k < msgs; k++ {
 						a.Send(amsg{s, k})
 					}
@@ -508,6 +615,12 @@ func scenarios(tier string) []*vsched.Scenario {
 			if c <= 1 && before <= 1 {
 				out = append(out, closeScenario("handler-via-monadio-observe", c, before, b), closeScenario("handler-via-monadio-subscribe", c, before, b), closeScenario("handler-via-publisher", c, before, b))
 			}
+		}
+	}
+	out = append(out, backlogScenario(64, 2, 40, 1), backlogScenario(512, 1, 300, 0), backlogScenario(2048, 4, 600, 0), backlogScenario(2048, 1, 1100, 0))
+	for _, idle := range []time.Duration{3 * time.Second, 10 * time.Minute} {
+		for _, c := range []int{0, 1} {
+			out = append(out, idleHandlerScenario(c, 2, 2, idle, b), idleActorScenario(c, 2, 2, idle, b), idleActorScenario(c, 3, 1, idle, b))
 		}
 	}
 	if tier == "thorough" {
